@@ -135,10 +135,25 @@ def stacked(scale, deg, n):
     return [(scale[(deg + 2 * i) % 7] - root) % 12 for i in range(n)]
 
 
-def diatonic_figures(mode):
+MINN = [0, 2, 3, 5, 7, 8, 10]
+
+
+def natural_minor_figures():
+    """the figures of a minor key that only exist in NATURAL minor (upper-case III and VII with all their
+    inversions and sevenths, the minor dominant triad v): (figure, degree, intervals, inversion).  Added after the
+    seeded change C15-1 (subtonic seventh chord) went unnoticed: harmonic minor alone never exercises `VII7`.
+    `i7` / `v7` are left out on purpose: the library reads them with the harmonic-minor leading tone (see DESIGN)."""
+    out = []
+    for fig, deg, iv, inv in diatonic_figures('minor', scale=MINN):
+        if deg in (2, 6) or (deg == 4 and len(iv) == 3):
+            out.append((fig, deg, iv, inv))
+    return out
+
+
+def diatonic_figures(mode, scale=None):
     """[(figure text, degree, intervals above the root, inversion)] for the 7 triads x 3 and 7 sevenths x 4;
     the figure name is derived from the chord quality by the standard rules"""
-    scale = MAJ if mode == 'major' else MINH
+    scale = scale or (MAJ if mode == 'major' else MINH)
     out = []
     for deg in range(7):
         tri = stacked(scale, deg, 3)
@@ -161,8 +176,8 @@ KEY_NAMES = {
 }
 
 
-def expected_chord(key, mode, deg, intervals, inv):
-    scale = MAJ if mode == 'major' else MINH
+def expected_chord(key, mode, deg, intervals, inv, natural=False):
+    scale = MAJ if mode == 'major' else (MINN if natural else MINH)
     root = (key + scale[deg]) % 12
     return sorted((root + i) % 12 for i in intervals), (root + intervals[inv]) % 12
 
@@ -458,7 +473,7 @@ def check_diatonic(inp):
     'text' (a one-bar annotation with the key written as a token, e.g. `m1 bb: iiø65`)."""
     from musiclang import Chord, Tonality
     key, mode, fig, deg, intervals, inv = inp['key'], inp['mode'], inp['figure'], inp['deg'], inp['intervals'], inp['inv']
-    exp = expected_chord(key, mode, deg, intervals, inv)
+    exp = expected_chord(key, mode, deg, intervals, inv, natural=inp.get('natural', False))
     try:
         if inp['via'] == 'analyze':
             from musiclang.analyze.roman_parser import analyze_one_chord
@@ -518,10 +533,12 @@ def oracle(ctx):
         if r:
             ctx.fail(timing_signature(inp), inp, r['observed'], r['expected'], oracle='timing')
     # --- diatonic figures x inversions x 12 keys x 2 modes, through analyze_one_chord and through a text
-    for mode in ('major', 'minor'):
-        for fig, deg, intervals, inv in diatonic_figures(mode):
+    for mode, natural, figs in (('major', False, diatonic_figures('major')), ('minor', False, diatonic_figures('minor')),
+                                ('minor', True, natural_minor_figures())):
+        for fig, deg, intervals, inv in figs:
             for key in range(12):
-                base = {'key': key, 'mode': mode, 'figure': fig, 'deg': deg, 'intervals': intervals, 'inv': inv}
+                base = {'key': key, 'mode': mode, 'figure': fig, 'deg': deg, 'intervals': intervals, 'inv': inv,
+                        'natural': natural}
                 todo = [dict(base, via='analyze')]
                 names = KEY_NAMES[mode][key]
                 if ctx.tier == 'thorough' or ctx.search:
